@@ -85,7 +85,7 @@ REG = {
                 deciding_monitors=["pairs"], assumptions=BASE_ASSUME),
     "C16": dict(module="vlib.props.meta", level="exploration",
                 rule="projects with 1-5 scenarios (nesting <= 3) and scenario-specific effort/start overrides: each scenario vs the single-scenario "
-                     "project with its effective attributes (same horizon observed), scenario without overrides vs parent, M-scen at every scenario "
+                     "project with its effective attributes (a differing project end is the known finding horizon-extension-from-scenario-0), scenario without overrides vs parent, M-scen at every scenario "
                      "entry (ledgers empty, limit counters zero, no object shared between scenarios); distinct = (#scenarios, nested count, "
                      "#overrides, resolution, limits?, horizon extended?)",
                 quick=dict(cases=2400, budget_s=150, min_nontrivial=40, case_timeout=60),
